@@ -26,9 +26,17 @@ pub fn basic_id(rank: u8, j: u16) -> [u8; 32] {
     b
 }
 
+/// Tag of a merge id that did not fit the structural encoding (wide head sets): 31 hash bytes
+/// follow.  Such ids sort after everything else; they occur only in the wide families, whose
+/// verdicts do not depend on the spec's id order.
+pub const HASHED_TAG: u8 = 0xFD;
+
 /// Length of the encoded id at the start of `b` (`merge_tag` distinguishes merges).
 pub fn id_len(b: &[u8], merge_tag: u8) -> Option<usize> {
     let t = *b.first()?;
+    if t == HASHED_TAG {
+        return (b.len() >= 32).then_some(32);
+    }
     if t == INIT_TAG {
         Some(1)
     } else if t == BASIC_TAG {
@@ -48,7 +56,18 @@ pub fn merge_id(a: &[u8; 32], b: &[u8; 32], merge_tag: u8) -> Option<[u8; 32]> {
     let ll = id_len(l, merge_tag)?;
     let rl = id_len(r, merge_tag)?;
     if 1 + ll + rl > 32 {
-        return None;
+        use std::hash::{Hash, Hasher};
+        let mut out = [0u8; 32];
+        out[0] = HASHED_TAG;
+        for k in 0..4u8 {
+            let mut h = std::collections::hash_map::DefaultHasher::new();
+            (k, l, r).hash(&mut h);
+            let v = h.finish().to_be_bytes();
+            let at = 1 + 8 * k as usize;
+            let n = (32 - at).min(8);
+            out[at..at + n].copy_from_slice(&v[..n]);
+        }
+        return Some(out);
     }
     let mut out = [0u8; 32];
     out[0] = merge_tag;
